@@ -13,9 +13,10 @@ peng_high.json (98; the default of PengParametrization).
                           projected_scattering_factor(k^2) == 2 pi int v_proj(r) J0(2 pi k r) r dr
                           (Simpson on a logarithmic grid) and
                           projected_potential(rho) == 2 int_0^inf v(sqrt(rho^2+z^2)) dz
-                          (Simpson in z = rho sinh t).  Label floors make the run a harness error
-                          unless all 3 x 16 parts were visited, i.e. the thorough tier enumerates
-                          every element of every table (about 13 sample sets per element).
+                          (Simpson in z = rho sinh t), at 4 radii and 4 frequencies.
+  fourier_pair_all_elements  the same two comparisons for EVERY element of all three tables in
+                          every example (one drawn radius, one drawn frequency): the thorough tier
+                          enumerates the whole finite domain 80 times (the quick tier once).
 
 Tolerances.  abTEM casts the (scaled) parameters to float32.  The quadrature comparisons use the
 same float32 parameters on both sides (observed <= 3e-5, worst: He/Lobato) -> rtol 1e-4 (+ cond term).
@@ -83,7 +84,7 @@ def _simpson_weights(n, h):
     return w * (h / 3.0)
 
 
-def _log_grid(r0=1e-7, R=2000.0, n=40001):
+def _log_grid(r0=1e-6, R=2000.0, n=20001):
     key = ("log", r0, R, n)
     if key not in _cache:
         u = np.linspace(np.log(r0), np.log(R), n)
@@ -100,7 +101,7 @@ def hankel_2d(vproj, ks):
     return np.array([2.0 * np.pi * np.sum(w * g * j0(2.0 * np.pi * k * r)) for k in ks])
 
 
-def abel_projection(v, rhos, R=2000.0, n=8001):
+def abel_projection(v, rhos, R=2000.0, n=4001):
     """2 int_0^inf v(sqrt(rho^2 + z^2)) dz with z = rho sinh t"""
     out = []
     for rho in rhos:
@@ -206,7 +207,37 @@ def check_monotone(case, ctx):
             )
 
 
-_PART_LABELS = {f"{t}/part{i}": 0.004 for t in TABLES for i in range(PARTS)}
+def _check_pair(table, sym, p, k, rho):
+    """projected scattering factor == 2-D FT of the projected potential == projection of the 3-D potential"""
+    # fits whose terms cancel (He) amplify the float32 rounding of parameters / outputs
+    terms = published_terms(table, p.parameters[sym], np.concatenate([[0.0], k**2]))
+    cond = np.abs(terms).sum(0) / np.abs(terms.sum(0))
+    tol_f = QUAD_RTOL + 16 * EPS32 * cond[1:]
+    tol_v = QUAD_RTOL + 16 * EPS32 * cond[0]
+    v = p.potential(sym)
+    vproj = p.projected_potential(sym)
+    fproj = p.projected_scattering_factor(sym)
+    ref_f = np.asarray(fproj(k**2), dtype=np.float64)
+    got_f = hankel_2d(vproj, k)
+    err = np.abs(got_f - ref_f) / np.abs(ref_f)
+    if not np.all(err <= tol_f):
+        i = int(np.argmax(~(err <= tol_f)))
+        raise Violation(
+            f"{table} {sym}: projected_scattering_factor(k={k[i]!r}) = {ref_f[i]!r} but the 2-D Fourier transform of projected_potential is {got_f[i]!r} (rel {err[i]:.2e})",
+            ("fourier_pair", table),
+        )
+    ref_v = np.asarray(vproj(rho), dtype=np.float64)
+    got_v = abel_projection(v, rho)
+    err = np.abs(got_v - ref_v) / np.abs(ref_v)
+    if not np.all(err <= tol_v):
+        i = int(np.argmax(~(err <= tol_v)))
+        raise Violation(
+            f"{table} {sym}: projected_potential(rho={rho[i]!r}) = {ref_v[i]!r} but the projection of potential along z is {got_v[i]!r} (rel {err[i]:.2e})",
+            ("projection", table),
+        )
+
+
+_QUAD_TOL = "rtol 1e-4 + 16*eps32*cond pointwise (observed <= 3e-5 for He/Lobato, <= 4e-7 elsewhere)"
 
 
 @claim(
@@ -214,43 +245,51 @@ _PART_LABELS = {f"{t}/part{i}": 0.004 for t in TABLES for i in range(PARTS)}
     "fourier_pair_elements",
     fourier_case,
     quick=40,
-    thorough=640,
-    tol="rtol 1e-4 + 16*eps32*cond pointwise (observed <= 3e-5 for He/Lobato, <= 4e-7 elsewhere)",
-    rule="always (every example compares independently coded real- and reciprocal-space forms for ~1/16 of a table)",
+    thorough=320,
+    tol=_QUAD_TOL,
+    rule="always (every example compares independently coded real- and reciprocal-space forms for 1/16 of a table at 4 radii and 4 frequencies)",
     nontrivial_floor=0.9,
-    floors=_PART_LABELS,
+    floors={"lobato": 0.1, "kirkland": 0.1, "peng": 0.1},
 )
 def check_fourier_pair(case, ctx):
     table, part = case["table"], case["part"]
     p = _param(table)
     rho = np.array(case["radii"], dtype=np.float64)
     k = np.array(case["ks"], dtype=np.float64)
+    ctx.label(table)
     ctx.label(f"{table}/part{part}")
     ctx.nontrivial()
     for sym in _symbols(table)[part::PARTS]:
-        # fits whose terms cancel (He) amplify the float32 rounding of parameters / outputs
-        terms = published_terms(table, p.parameters[sym], np.concatenate([[0.0], k**2]))
-        cond = np.abs(terms).sum(0) / np.abs(terms.sum(0))
-        tol_f = QUAD_RTOL + 16 * EPS32 * cond[1:]
-        tol_v = QUAD_RTOL + 16 * EPS32 * cond[0]
-        v = p.potential(sym)
-        vproj = p.projected_potential(sym)
-        fproj = p.projected_scattering_factor(sym)
-        ref_f = np.asarray(fproj(k**2), dtype=np.float64)
-        got_f = hankel_2d(vproj, k)
-        err = np.abs(got_f - ref_f) / np.abs(ref_f)
-        if not np.all(err <= tol_f):
-            i = int(np.argmax(~(err <= tol_f)))
-            raise Violation(
-                f"{table} {sym}: projected_scattering_factor(k={k[i]!r}) = {ref_f[i]!r} but the 2-D Fourier transform of projected_potential is {got_f[i]!r} (rel {err[i]:.2e})",
-                ("fourier_pair", table),
-            )
-        ref_v = np.asarray(vproj(rho), dtype=np.float64)
-        got_v = abel_projection(v, rho)
-        err = np.abs(got_v - ref_v) / np.abs(ref_v)
-        if not np.all(err <= tol_v):
-            i = int(np.argmax(~(err <= tol_v)))
-            raise Violation(
-                f"{table} {sym}: projected_potential(rho={rho[i]!r}) = {ref_v[i]!r} but the projection of potential along z is {got_v[i]!r} (rel {err[i]:.2e})",
-                ("projection", table),
-            )
+        _check_pair(table, sym, p, k, rho)
+
+
+@st.composite
+def all_elements_case(draw):
+    return {
+        "radii": draw(sorted_samples(0.005, 4.0, 1, 1e-3, include_lo=True)),
+        "ks": draw(sorted_samples(0.0, 8.0, 1, 1e-3, include_lo=True)),
+    }
+
+
+@claim(
+    "C25",
+    "fourier_pair_all_elements",
+    all_elements_case,
+    quick=1,
+    thorough=80,
+    tol=_QUAD_TOL,
+    rule="always (every example enumerates ALL 103 + 103 + 98 elements of the three tables at one drawn radius and one drawn frequency)",
+    nontrivial_floor=0.9,
+)
+def check_fourier_pair_all(case, ctx):
+    rho = np.array(case["radii"], dtype=np.float64)
+    k = np.array(case["ks"], dtype=np.float64)
+    ctx.nontrivial()
+    n = 0
+    for table in sorted(TABLES):
+        p = _param(table)
+        for sym in _symbols(table):
+            _check_pair(table, sym, p, k, rho)
+            n += 1
+    ctx.note("elements_checked", n)
+    ctx.label(f"elements={n}")
